@@ -1,17 +1,64 @@
 mod fmt;
+mod gen;
 mod run;
+mod world;
+
+use std::fs;
+
+fn arg_u64(a: &[String], i: usize) -> u64 {
+    a[i].parse().expect("numeric argument")
+}
 
 fn main() {
     let args: Vec<String> = std::env::args().collect();
     std::panic::set_hook(Box::new(|_| {}));
     match args.get(1).map(|s| s.as_str()) {
+        // mwh run <ops> <obs>
         Some("run") => {
-            let input = std::fs::read_to_string(&args[2]).expect("read ops");
+            let input = fs::read_to_string(&args[2]).expect("read ops");
             let out = run::run_file(&input);
-            std::fs::write(&args[3], out).expect("write obs");
+            fs::write(&args[3], out).expect("write obs");
+        }
+        // mwh world <backend> <seed> <histories> <events> <out-prefix>
+        //   writes <prefix>.ops (contract-level ops), <prefix>.events, <prefix>.impl (observations)
+        Some("world") => {
+            let backend = &args[2];
+            let seed = arg_u64(&args, 3);
+            let n = arg_u64(&args, 4);
+            let len = arg_u64(&args, 5);
+            let prefix = &args[6];
+            let mut ops = String::new();
+            let mut events = String::new();
+            for h in 0..n {
+                let hseed = seed.wrapping_mul(1_000_003).wrapping_add(h);
+                let mut g = gen::WorldGen::new(hseed, backend, h);
+                events.push_str(&format!("== history {} seed {}\n", h, hseed));
+                if g.start() {
+                    let k = len / 2 + g.r.below(len / 2 + 1);
+                    for i in 0..k {
+                        g.step();
+                        if i % 10 == 9 {
+                            g.queries();
+                        }
+                    }
+                    g.queries();
+                }
+                for l in g.w.ops.iter() {
+                    ops.push_str(l);
+                    ops.push('\n');
+                }
+                for l in g.w.events.iter() {
+                    events.push_str(l);
+                    events.push('\n');
+                }
+            }
+            fs::write(format!("{prefix}.ops"), &ops).expect("write ops");
+            fs::write(format!("{prefix}.events"), &events).expect("write events");
+            let out = run::run_file(&ops);
+            fs::write(format!("{prefix}.impl"), out).expect("write obs");
         }
         _ => {
-            eprintln!("usage: mwh run <ops> <obs>");
+            eprintln!("usage: mwh run <ops> <obs> | mwh world <backend> <seed> <n> <len> <prefix>");
             std::process::exit(2);
         }
     }
